@@ -262,6 +262,12 @@ func mergeIOSACLs(ab *cmdsPair, name, prefix string) {
 
 func mergeCryptoMap(ab *cmdsPair, name, prefix string) {
 	al := ab.aCmds
+	// Crypto map of IOS has subcommands, which can't be merged.
+	for _, b := range ab.bCmds {
+		if ab.b.isRaw && len(b.sub) > 0 {
+			errlog.Abort("Command 'crypto map' of IOS not supported in raw file")
+		}
+	}
 	matchCryptoMap(al, ab.bCmds, func(aSeqL, bSeqL []*cmd) {
 		add := mergeCryptoCommon(ab, aSeqL, bSeqL)
 		al = append(al, add...)
